@@ -31,10 +31,17 @@ Section G.
   Notation elsifs := (elsifs tk cl).
   Notation else_part := (else_part tk cl).
   Notation if_tail := (if_tail tk cl).
+  Notation signed_int := (signed_int tk cl num).
+  Notation case_sel := (case_sel tk cl txt num).
+  Notation csels_more := (csels_more tk cl txt num).
+  Notation case_elem := (case_elem tk cl txt num).
+  Notation cases_more := (cases_more tk cl txt num).
+  Notation cases := (cases tk cl txt num).
+  Notation case_tail := (case_tail tk cl txt num).
   Notation for_tail := (for_tail tk cl txt).
   Notation while_tail := (while_tail tk cl).
   Notation repeat_tail := (repeat_tail tk cl).
-  Notation stmt1 := (stmt1 tk cl txt).
+  Notation stmt1 := (stmt1 tk cl txt num).
   Notation stmts_more := (stmts_more tk cl).
   Notation group := (group tk cl).
   Notation groups_more := (groups_more tk cl).
@@ -74,12 +81,52 @@ Section G.
   (* ---- spelled statements ---- *)
   Inductive sby := ByNone | BySome (k : tk) (w1 : list tk) (e : sp) (w2 : list tk).
 
+  (* CASE selectors: signed integers, subranges, enumerated values without type prefix *)
+  (* SiMinus has a slot where the grammar admits no trivia (well-formed only when it is empty): the renderer writes a blank there *)
+  Inductive sint := SiPlain (d : tk) | SiPlus (p d : tk) | SiMinus (m : tk) (w : list tk) (d : tk).
+  Inductive ssel := SelInt (i : sint) | SelRange (i1 : sint) (w1 : list tk) (dots : tk) (w2 : list tk) (i2 : sint) | SelEnum (n : tk).
+  Inductive smsel := MSel (w1 : list tk) (comma : tk) (w2 : list tk) (x : ssel).      (* _ ',' _ selector *)
+
+  Definition flat_int (i : sint) : list tk := match i with SiPlain d => [d] | SiPlus p d => [p; d] | SiMinus m w d => m :: w ++ [d] end.
+  Definition erase_int (i : sint) : bool * N :=
+    match i with SiPlain d => (false, num d) | SiPlus _ d => (false, num d) | SiMinus _ _ d => (true, num d) end.
+  Definition wf_int (i : sint) : Prop :=
+    match i with
+    | SiPlain d => cl d = CConst CkInt
+    | SiPlus p d => cl p = COp BAdd /\ cl d = CConst CkInt
+    | SiMinus m w d => cl m = CMinus /\ w = [] /\ cl d = CConst CkInt
+    end.
+  Definition flat_sel (x : ssel) : list tk :=
+    match x with
+    | SelInt i => flat_int i
+    | SelRange i1 w1 dots w2 i2 => flat_int i1 ++ w1 ++ dots :: w2 ++ flat_int i2
+    | SelEnum n => [n]
+    end.
+  Definition erase_sel (x : ssel) : csel :=
+    match x with
+    | SelInt i => CsInt (fst (erase_int i)) (snd (erase_int i))
+    | SelRange i1 _ _ _ i2 => CsRange (fst (erase_int i1)) (snd (erase_int i1)) (fst (erase_int i2)) (snd (erase_int i2))
+    | SelEnum n => CsEnum (txt n)
+    end.
+  Definition wf_sel (x : ssel) : Prop :=
+    match x with
+    | SelInt i => wf_int i
+    | SelRange i1 w1 dots w2 i2 => wf_int i1 /\ all_triv w1 /\ cl dots = CRange /\ all_triv w2 /\ wf_int i2
+    | SelEnum n => cl n = CId
+    end.
+  Definition flat_ms (m : smsel) : list tk := match m with MSel w1 comma w2 x => w1 ++ comma :: w2 ++ flat_sel x end.
+  Definition erase_ms (m : smsel) : csel := match m with MSel _ _ _ x => erase_sel x end.
+  Definition wf_ms (m : smsel) : Prop :=
+    match m with MSel w1 comma w2 x => all_triv w1 /\ cl comma = CComma /\ all_triv w2 /\ wf_sel x end.
+  Definition flat_mss (ms : list smsel) : list tk := concat (map flat_ms ms).
+
   Inductive ss :=
     | SsAssign (v : tk) (vs : ssels) (w1 : list tk) (a : tk) (w2 : list tk) (e : sp)
     | SsCall0 (f : tk) (w1 : list tk) (lp : tk) (w2 : list tk) (rp : tk)
     | SsCallN (f : tk) (w1 : list tk) (lp : tk) (w2 : list tk) (p : spar) (ps : spars) (w3 : list tk) (rp : tk)
     | SsIf (k : tk) (w1 : list tk) (c : sp) (w2 : list tk) (th : tk) (w3 : list tk) (b : sob) (eis : seis) (el : sels)
            (w4 : list tk) (en : tk)
+    | SsCase (k : tk) (w1 : list tk) (c : sp) (w2 : list tk) (o : tk) (cs : scases) (el : sels) (w4 : list tk) (en : tk)
     | SsFor (k : tk) (w1 : list tk) (v : tk) (w2 : list tk) (a : tk) (w3 : list tk) (e1 : sp) (w4 : list tk) (to : tk)
             (w5 : list tk) (e2 : sp) (w6 : list tk) (st : sby) (d : tk) (w7 : list tk) (body : sl) (w8 : list tk) (en : tk)
     | SsWhile (k : tk) (w1 : list tk) (c : sp) (w2 : list tk) (d : tk) (w3 : list tk) (body : sl) (w4 : list tk) (en : tk)
@@ -93,7 +140,9 @@ Section G.
   with sob := BNone | BSome (l : sl)
   with seis := EINil
     | EICons (w0 : list tk) (k : tk) (w1 : list tk) (c : sp) (w2 : list tk) (th : tk) (w3 : list tk) (body : sl) (r : seis)
-  with sels := ENone | ESome (w0 : list tk) (k : tk) (w1 : list tk) (body : sl).
+  with sels := ENone | ESome (w0 : list tk) (k : tk) (w1 : list tk) (body : sl)
+  with scases := CaNil                                               (* case_element ** _ *)
+    | CaCons (w0 : list tk) (x : ssel) (ms : list smsel) (w1 : list tk) (colon : tk) (w2 : list tk) (body : sl) (r : scases).
 
   Scheme ss_mut := Induction for ss Sort Prop
   with sl_mut := Induction for sl Sort Prop
@@ -101,8 +150,9 @@ Section G.
   with smore_mut := Induction for smore Sort Prop
   with sob_mut := Induction for sob Sort Prop
   with seis_mut := Induction for seis Sort Prop
-  with sels_mut := Induction for sels Sort Prop.
-  Combined Scheme ss_mutind from ss_mut, sl_mut, sg_mut, smore_mut, sob_mut, seis_mut, sels_mut.
+  with sels_mut := Induction for sels Sort Prop
+  with scases_mut := Induction for scases Sort Prop.
+  Combined Scheme ss_mutind from ss_mut, sl_mut, sg_mut, smore_mut, sob_mut, seis_mut, sels_mut, scases_mut.
 
   Definition flat_by (b : sby) : list tk :=
     match b with ByNone => [] | BySome k w1 e w2 => k :: w1 ++ flat e ++ w2 end.
@@ -114,6 +164,7 @@ Section G.
     | SsCallN f w1 lp w2 p ps w3 rp => f :: w1 ++ lp :: w2 ++ flatp p ++ flatps ps ++ w3 ++ [rp]
     | SsIf k w1 c w2 th w3 b eis el w4 en =>
         k :: w1 ++ flat c ++ w2 ++ th :: w3 ++ flat_b b ++ flat_eis eis ++ flat_el el ++ w4 ++ [en]
+    | SsCase k w1 c w2 o cs el w4 en => k :: w1 ++ flat c ++ w2 ++ o :: flat_cs cs ++ flat_el el ++ w4 ++ [en]
     | SsFor k w1 v w2 a w3 e1 w4 to w5 e2 w6 st d w7 body w8 en =>
         k :: w1 ++ v :: w2 ++ a :: w3 ++ flat e1 ++ w4 ++ to :: w5 ++ flat e2 ++ w6 ++ flat_by st ++ d :: w7 ++ flat_l body ++ w8 ++ [en]
     | SsWhile k w1 c w2 d w3 body w4 en => k :: w1 ++ flat c ++ w2 ++ d :: w3 ++ flat_l body ++ w4 ++ [en]
@@ -135,7 +186,12 @@ Section G.
     | EICons w0 k w1 c w2 th w3 body r => w0 ++ k :: w1 ++ flat c ++ w2 ++ th :: w3 ++ flat_l body ++ flat_eis r
     end
   with flat_el (e : sels) : list tk :=
-    match e with ENone => [] | ESome w0 k w1 body => w0 ++ k :: w1 ++ flat_l body end.
+    match e with ENone => [] | ESome w0 k w1 body => w0 ++ k :: w1 ++ flat_l body end
+  with flat_cs (e : scases) : list tk :=
+    match e with
+    | CaNil => []
+    | CaCons w0 x ms w1 colon w2 body r => w0 ++ flat_sel x ++ flat_mss ms ++ w1 ++ colon :: w2 ++ flat_l body ++ flat_cs r
+    end.
 
   Definition erase_by (b : sby) : option sexpr := match b with ByNone => None | BySome _ _ e _ => Some (erase e) end.
 
@@ -145,6 +201,7 @@ Section G.
     | SsCall0 f _ _ _ _ => TCall (txt f) []
     | SsCallN f _ _ _ p ps _ _ => TCall (txt f) (erasep p :: eraseps ps)
     | SsIf _ _ c _ _ _ b eis el _ _ => TIf (erase c) (erase_b b) (erase_eis eis) (erase_el el)
+    | SsCase _ _ c _ _ cs el _ _ => TCase (erase c) (erase_cs cs) (erase_el el)
     | SsFor _ _ v _ _ _ e1 _ _ _ e2 _ st _ _ body _ _ => TFor (txt v) (erase e1) (erase e2) (erase_by st) (erase_l body)
     | SsWhile _ _ c _ _ _ body _ _ => TWhile (erase c) (erase_l body)
     | SsRepeat _ _ body _ _ _ c _ _ => TRepeat (erase_l body) (erase c)
@@ -162,7 +219,12 @@ Section G.
   with erase_eis (e : seis) : list (sexpr * list stmt) :=
     match e with EINil => [] | EICons _ _ _ c _ _ _ body r => (erase c, erase_l body) :: erase_eis r end
   with erase_el (e : sels) : list stmt :=
-    match e with ENone => [] | ESome _ _ _ body => erase_l body end.
+    match e with ENone => [] | ESome _ _ _ body => erase_l body end
+  with erase_cs (e : scases) : list (list csel * list stmt) :=
+    match e with
+    | CaNil => []
+    | CaCons _ x ms _ _ _ body r => (erase_sel x :: map erase_ms ms, erase_l body) :: erase_cs r
+    end.
 
   Definition size_by (b : sby) : nat := match b with ByNone => 0 | BySome _ _ e _ => 1 + size e end.
 
@@ -172,6 +234,7 @@ Section G.
     | SsCall0 _ _ _ _ _ => 2
     | SsCallN _ _ _ _ p ps _ _ => 2 + sizep p + sizeps ps
     | SsIf _ _ c _ _ _ b eis el _ _ => 3 + size c + size_b b + size_eis eis + size_el el
+    | SsCase _ _ c _ _ cs el _ _ => 3 + size c + size_cs cs + size_el el
     | SsFor _ _ _ _ _ _ e1 _ _ _ e2 _ st _ _ body _ _ => 3 + size e1 + size e2 + size_by st + size_l body
     | SsWhile _ _ c _ _ _ body _ _ => 2 + size c + size_l body
     | SsRepeat _ _ body _ _ _ c _ _ => 2 + size c + size_l body
@@ -188,7 +251,9 @@ Section G.
   with size_eis (e : seis) : nat :=
     match e with EINil => 1 | EICons _ _ _ c _ _ _ body r => 2 + size c + size_l body + size_eis r end
   with size_el (e : sels) : nat :=
-    match e with ENone => 1 | ESome _ _ _ body => 1 + size_l body end.
+    match e with ENone => 1 | ESome _ _ _ body => 1 + size_l body end
+  with size_cs (e : scases) : nat :=
+    match e with CaNil => 1 | CaCons _ _ ms _ _ _ body r => 2 + length ms + size_l body + size_cs r end.
 
   (* a statement that ends in an expression ending in an identifier: the trivia after it is recorded at the identifier *)
   Definition sends (s : ss) : bool := match s with SsAssign _ _ _ _ _ e => ends_name e | _ => false end.
@@ -205,6 +270,7 @@ Section G.
   Fixpoint absorbs (l : sl) : bool := match l with LOne g => gempty g | LCons _ l => absorbs l end.
   Definition babsorbs (b : sob) : bool := match b with BNone => false | BSome l => absorbs l end.
   Definition el_lead (el : sels) (w4 : list tk) : list tk := match el with ENone => w4 | ESome w0 _ _ _ => w0 end.
+  Definition cs_lead (e : scases) (wt : list tk) : list tk := match e with CaNil => wt | CaCons w0 _ _ _ _ _ _ _ => w0 end.
   Definition eis_lead (e : seis) (wt : list tk) : list tk := match e with EINil => wt | EICons w0 _ _ _ _ _ _ _ _ => w0 end.
 
   (* [pe]: the list starts here or the previous group was an empty statement (which has read the trivia before this one);
@@ -220,6 +286,9 @@ Section G.
         cl k = CKw KwIf /\ all_triv w1 /\ wf 0 c /\ all_triv w2 /\ (ends_name c = true -> w2 = []) /\
         cl th = CKw KwThen /\ all_triv w3 /\ wf_b b /\ wf_eis (el_lead el w4) eis /\ wf_el w4 el /\ all_triv w4 /\
         cl en = CKw KwEndIf /\ (babsorbs b = true -> eis_lead eis (el_lead el w4) = [])
+    | SsCase k w1 c w2 o cs el w4 en =>
+        cl k = CKw KwCase /\ all_triv w1 /\ wf 0 c /\ all_triv w2 /\ (ends_name c = true -> w2 = []) /\
+        cl o = CKw KwOf /\ wf_cs (el_lead el w4) cs /\ wf_el w4 el /\ all_triv w4 /\ cl en = CKw KwEndCase
     | SsFor k w1 v w2 a w3 e1 w4 to w5 e2 w6 st d w7 body w8 en =>
         cl k = CKw KwFor /\ all_triv w1 /\ cl v = CId /\ all_triv w2 /\ cl a = CAssign /\ all_triv w3 /\
         wf 0 e1 /\ all_triv w4 /\ (ends_name e1 = true -> w4 = []) /\ cl to = CKw KwTo /\ all_triv w5 /\
@@ -266,31 +335,68 @@ Section G.
     match e with
     | ENone => True
     | ESome w0 k w1 body => all_triv w0 /\ cl k = CKw KwElse /\ all_triv w1 /\ wf_l true body /\ (absorbs body = true -> w4 = [])
+    end
+  with wf_cs (wt : list tk) (e : scases) : Prop :=
+    match e with
+    | CaNil => True
+    | CaCons w0 x ms w1 colon w2 body r =>
+        all_triv w0 /\ wf_sel x /\ Forall wf_ms ms /\ all_triv w1 /\ cl colon = CColon /\ all_triv w2 /\
+        wf_l true body /\ wf_cs wt r /\ (absorbs body = true -> cs_lead r wt = [])
     end.
 
   (* ---- what may follow ---- *)
   Definition starter (k : kw) : bool :=
-    match k with KwIf | KwFor | KwWhile | KwRepeat | KwExit | KwReturn => true | _ => false end.
+    match k with KwIf | KwCase | KwFor | KwWhile | KwRepeat | KwExit | KwReturn => true | _ => false end.
   (* a token at which statement() fails at once *)
   Definition nonstart (c : tcl) : bool :=
     match c with CId => false | CKw k => negb (starter k) | _ => true end.
+  (* the first token of an integer or subrange selector of a CASE element *)
+  Definition sel_start (c : tcl) : bool := match c with CConst CkInt | COp BAdd | CMinus => true | _ => false end.
+  Definition colon_or_comma (c : tcl) : bool := match c with CColon | CComma => true | _ => false end.
+  (* no statement starts here: a token at which statement() fails at once, or a name before ':' or ',' (an enumerated
+     value as CASE selector) *)
   Definition nostart (rest : list tk) : Prop :=
-    match skip rest with t :: _ => nonstart (cl t) = true | [] => True end.
+    match skip rest with
+    | t :: r => match cl t with
+                | CId => match skip r with c :: _ => colon_or_comma (cl c) = true | [] => False end
+                | c => nonstart c = true
+                end
+    | [] => True
+    end.
   (* the keyword that closes the construct a list stands in *)
-  Definition closer_next (rest : list tk) : Prop :=
+  Definition kw_closer (rest : list tk) : Prop :=
     match skip rest with t :: _ => match cl t with CKw k => starter k = false | _ => False end | [] => False end.
+  (* ... or the selector of the next CASE element *)
+  Definition closer_next (rest : list tk) : Prop :=
+    match skip rest with
+    | t :: r => match cl t with
+                | CKw k => starter k = false
+                | CId => match skip r with c :: _ => colon_or_comma (cl c) = true | [] => False end
+                | c => sel_start c = true
+                end
+    | [] => False
+    end.
+
+  Lemma kw_closer_next rest : kw_closer rest -> closer_next rest.
+  Proof.
+    unfold kw_closer, closer_next. destruct (skip rest) as [|t r]; [exact (fun H => H)|]. destruct (cl t); try contradiction. exact (fun H => H).
+  Qed.
 
   Lemma closer_nostart rest : closer_next rest -> nostart rest.
   Proof.
     unfold closer_next, nostart. destruct (skip rest) as [|t r]; [contradiction|].
-    destruct (cl t); try contradiction. intro H. cbn. rewrite H. reflexivity.
+    destruct (cl t) as [| |k0| | | | | | | | | | | |o| | |k| | | |]; try (exact (fun H => H)); cbn; try discriminate; try reflexivity.
+    intro H. rewrite H. reflexivity.
+  Qed.
+
+  Lemma kw_closer_at w t r k : all_triv w -> cl t = CKw k -> starter k = false -> kw_closer (w ++ t :: r).
+  Proof.
+    intros Hw Ht Hk. unfold kw_closer. rewrite (skip_app_triv tk cl w _ Hw).
+    rewrite (skip_solid tk cl t r) by (unfold StExprProofs.solid; rewrite Ht; discriminate). rewrite Ht. exact Hk.
   Qed.
 
   Lemma closer_at w t r k : all_triv w -> cl t = CKw k -> starter k = false -> closer_next (w ++ t :: r).
-  Proof.
-    intros Hw Ht Hk. unfold closer_next. rewrite (skip_app_triv tk cl w _ Hw).
-    rewrite (skip_solid tk cl t r) by (unfold StExprProofs.solid; rewrite Ht; discriminate). rewrite Ht. exact Hk.
-  Qed.
+  Proof. intros Hw Ht Hk. apply kw_closer_next. eapply kw_closer_at; eassumption. Qed.
 
   Lemma skip_skip ts : skip (skip ts) = skip ts.
   Proof.
@@ -304,13 +410,24 @@ Section G.
   Lemma stmt1_fails pe pl f t r : nonstart (cl t) = true -> stmt1 pe pl f (t :: r) = Fail.
   Proof.
     intro H. unfold StParser.stmt1, StParser.assign, StParser.pvariable, StParser.fbcall, StParser.ident.
-    destruct (cl t) as [| |k0| | | | | | | | | |o| | |k| | | |]; cbn in H; try discriminate; try reflexivity.
+    destruct (cl t) as [| |k0| | | | | | | | | | | |o| | |k| | | |]; cbn in H; try discriminate; try reflexivity.
     destruct k; cbn in H; try discriminate; reflexivity.
   Qed.
 
-  Lemma stmt1_fails_skip pe pl f rest : nostart rest -> stmt1 pe pl f (skip rest) = Fail.
+  (* a name before ':' or ',' is no assignment and no call *)
+  Lemma stmt1_name_fails pe pl f t r c r' : cl t = CId -> skip r = c :: r' -> colon_or_comma (cl c) = true ->
+    stmt1 pe pl (S f) (t :: r) = Fail.
   Proof.
-    unfold nostart. destruct (skip rest) as [|t r] eqn:E; [intros _; reflexivity|]. intro H. apply stmt1_fails. exact H.
+    intros Ht Er Hc. unfold StParser.stmt1, StParser.assign, StParser.pvariable, StParser.fbcall, StParser.call_tail, StParser.next_is.
+    rewrite (ident_at tk cl txt t r Ht). cbn [StParser.sels_loop]. rewrite Er, Ht.
+    destruct (cl c) eqn:Ec; try discriminate Hc; cbn; rewrite ?Er, ?Ec; cbn; rewrite ?Er, ?Ec; reflexivity.
+  Qed.
+
+  Lemma stmt1_fails_skip pe pl f rest : 1 <= f -> nostart rest -> stmt1 pe pl f (skip rest) = Fail.
+  Proof.
+    intro Hf. unfold nostart. destruct (skip rest) as [|t r] eqn:E; [intros _; reflexivity|].
+    destruct (cl t) eqn:Ec; intro H; try (apply stmt1_fails; rewrite Ec; exact H).
+    destruct (skip r) as [|c r'] eqn:Er; [contradiction|]. destruct f as [|f]; [lia|]. eapply stmt1_name_fails; eassumption.
   Qed.
 
   (* statement_list() fails at once where no statement and no ';' starts *)
@@ -392,6 +509,111 @@ Section G.
   Definition gfollow (g : sg) (rest : list tk) : Prop :=
     match g with GEmpty _ _ _ => skip rest = rest | GStmts _ _ _ _ => nostart rest end.
 
+  (* ---- CASE selectors ---- *)
+  Lemma signed_int_at i r : wf_int i -> signed_int (flat_int i ++ r) = Some (erase_int i, r).
+  Proof.
+    destruct i as [d|p d|m w d]; cbn [wf_int flat_int erase_int app]; unfold StParser.signed_int.
+    - intro Hd. rewrite Hd. reflexivity.
+    - intros (Hp & Hd). rewrite Hp, Hd. reflexivity.
+    - intros (Hm & -> & Hd). cbn [app]. rewrite Hm, Hd. reflexivity.
+  Qed.
+
+  Lemma flat_int_head i r : wf_int i -> exists t r', flat_int i ++ r = t :: r' /\ solid t /\ sel_start (cl t) = true.
+  Proof.
+    destruct i as [d|p d|m w d]; cbn [wf_int flat_int app].
+    - intro Hd. exists d, r. unfold StExprProofs.solid. rewrite Hd. repeat split; discriminate.
+    - intros (Hp & _). exists p, (d :: r). unfold StExprProofs.solid. rewrite Hp. repeat split; discriminate.
+    - intros (Hm & _). exists m, ((w ++ [d]) ++ r). unfold StExprProofs.solid. rewrite Hm. repeat split; discriminate.
+  Qed.
+
+  Lemma flat_sel_head x r : wf_sel x -> exists t r', flat_sel x ++ r = t :: r' /\ solid t.
+  Proof.
+    destruct x as [i|i1 w1 dots w2 i2|n]; cbn [wf_sel flat_sel].
+    - intro Hi. destruct (flat_int_head i r Hi) as (t & r' & E & Ht & _). exists t, r'. split; assumption.
+    - intros (Hi & _). rewrite <- app_assoc. destruct (flat_int_head i1 ((w1 ++ dots :: w2 ++ flat_int i2) ++ r) Hi) as (t & r' & E & Ht & _).
+      exists t, r'. split; assumption.
+    - intro Hn. exists n, r. split; [reflexivity|]. unfold StExprProofs.solid. rewrite Hn. discriminate.
+  Qed.
+
+  Lemma case_sel_at x w t r : wf_sel x -> all_triv w -> colon_or_comma (cl t) = true ->
+    case_sel (flat_sel x ++ w ++ t :: r) = Some (erase_sel x, w ++ t :: r).
+  Proof.
+    intros Hx Hw Ht.
+    assert (Hst : solid t) by (unfold StExprProofs.solid; destruct (cl t); try discriminate; discriminate).
+    assert (Hnr : is_range (cl t) = false) by (destruct (cl t); try discriminate; reflexivity).
+    destruct x as [i|i1 w1 dots w2 i2|n]; cbn [wf_sel flat_sel erase_sel] in *; unfold StParser.case_sel.
+    - rewrite (signed_int_at i _ Hx). destruct (erase_int i) as [ng v]. cbn [fst snd].
+      rewrite (next_is_not tk cl _ w t r Hw Hst Hnr). reflexivity.
+    - destruct Hx as (Hi1 & Hw1 & Hdots & Hw2 & Hi2).
+      replace ((flat_int i1 ++ w1 ++ dots :: w2 ++ flat_int i2) ++ w ++ t :: r)
+        with (flat_int i1 ++ w1 ++ dots :: w2 ++ flat_int i2 ++ w ++ t :: r)
+        by (repeat (rewrite <- app_assoc; cbn [app]); reflexivity).
+      rewrite (signed_int_at i1 _ Hi1). destruct (erase_int i1) as [ng1 v1]. cbn [fst snd].
+      assert (Hsd : solid dots) by (unfold StExprProofs.solid; rewrite Hdots; discriminate).
+      rewrite (next_is_at tk cl _ w1 dots _ Hw1 Hsd) by (rewrite Hdots; reflexivity).
+      rewrite (skip_app_triv tk cl w2 _ Hw2).
+      destruct (flat_int_head i2 (w ++ t :: r) Hi2) as (t2 & r2 & E2 & Ht2 & _).
+      assert (Hsk : skip (flat_int i2 ++ w ++ t :: r) = flat_int i2 ++ w ++ t :: r) by (rewrite E2; apply skip_solid; exact Ht2).
+      rewrite Hsk, (signed_int_at i2 _ Hi2). destruct (erase_int i2) as [ng2 v2]. reflexivity.
+    - cbn [app]. unfold StParser.signed_int. rewrite Hx. rewrite (ident_at tk cl txt n _ Hx). reflexivity.
+  Qed.
+
+  (* what follows a selector inside a case list: trivia, then ',' or ':' *)
+  Lemma mss_follow ms w1 colon r : Forall wf_ms ms -> all_triv w1 -> cl colon = CColon ->
+    exists fw ft fr, flat_mss ms ++ w1 ++ colon :: r = fw ++ ft :: fr /\ all_triv fw /\ colon_or_comma (cl ft) = true.
+  Proof.
+    intros Hms Hw1 Hcolon. destruct ms as [|[mw1 comma mw2 mx] ms'].
+    - exists w1, colon, r. cbn [flat_mss map concat app]. rewrite Hcolon. split; [reflexivity|]. split; [exact Hw1 | reflexivity].
+    - apply Forall_inv in Hms. destruct Hms as (Hmw1 & Hcomma & _).
+      eexists mw1, comma, _. unfold flat_mss. cbn [map concat flat_ms]. rewrite <- !app_assoc. cbn [app].
+      split; [reflexivity|]. rewrite Hcomma. split; [exact Hmw1 | reflexivity].
+  Qed.
+
+  Lemma csels_more_at ms : Forall wf_ms ms -> forall acc w1 colon r f, all_triv w1 -> cl colon = CColon -> length ms < f ->
+    csels_more f acc (flat_mss ms ++ w1 ++ colon :: r) = Ok (acc ++ map erase_ms ms, w1 ++ colon :: r).
+  Proof.
+    induction ms as [|[mw1 comma mw2 mx] ms' IH]; intros Hms acc w1 colon r f Hw1 Hcolon Hf.
+    - destruct f as [|f]; [cbn in Hf; lia|]. cbn [flat_mss map concat app StParser.csels_more].
+      assert (Hsc : solid colon) by (unfold StExprProofs.solid; rewrite Hcolon; discriminate).
+      rewrite (next_is_not tk cl _ w1 colon r Hw1 Hsc) by (rewrite Hcolon; reflexivity). rewrite app_nil_r. reflexivity.
+    - destruct f as [|f]; [cbn in Hf; lia|]. cbn [length] in Hf.
+      pose proof (Forall_inv Hms) as (Hmw1 & Hcomma & Hmw2 & Hmx). pose proof (Forall_inv_tail Hms) as Hms'.
+      unfold flat_mss. cbn [map concat flat_ms]. fold (flat_mss ms').
+      replace (((mw1 ++ comma :: mw2 ++ flat_sel mx) ++ flat_mss ms') ++ w1 ++ colon :: r)
+        with (mw1 ++ comma :: mw2 ++ flat_sel mx ++ flat_mss ms' ++ w1 ++ colon :: r)
+        by (repeat (rewrite <- app_assoc; cbn [app]); reflexivity).
+      cbn [StParser.csels_more].
+      assert (Hsc : solid comma) by (unfold StExprProofs.solid; rewrite Hcomma; discriminate).
+      rewrite (next_is_at tk cl _ mw1 comma _ Hmw1 Hsc) by (rewrite Hcomma; reflexivity).
+      rewrite (skip_app_triv tk cl mw2 _ Hmw2).
+      destruct (flat_sel_head mx (flat_mss ms' ++ w1 ++ colon :: r) Hmx) as (tx & rx & Ex & Htx).
+      assert (Hsk : skip (flat_sel mx ++ flat_mss ms' ++ w1 ++ colon :: r) = flat_sel mx ++ flat_mss ms' ++ w1 ++ colon :: r)
+        by (rewrite Ex; apply skip_solid; exact Htx).
+      rewrite Hsk.
+      destruct (mss_follow ms' w1 colon r Hms' Hw1 Hcolon) as (fw & ft & fr & Ef & Hfw & Hft).
+      rewrite Ef, (case_sel_at mx fw ft fr Hmx Hfw Hft), <- Ef.
+      rewrite (IH Hms' (acc ++ [erase_sel mx]) w1 colon r f Hw1 Hcolon) by lia.
+      cbn [map erase_ms]. rewrite <- app_assoc. reflexivity.
+  Qed.
+
+  (* the selector of a CASE element closes the statement list before it *)
+  Lemma sel_closer w0 x ms w1 colon r : all_triv w0 -> wf_sel x -> Forall wf_ms ms -> all_triv w1 -> cl colon = CColon ->
+    closer_next (w0 ++ flat_sel x ++ flat_mss ms ++ w1 ++ colon :: r).
+  Proof.
+    intros Hw0 Hx Hms Hw1 Hcolon. unfold closer_next. rewrite (skip_app_triv tk cl w0 _ Hw0).
+    destruct x as [i|i1 xw1 dots xw2 i2|n]; cbn [wf_sel flat_sel] in *.
+    - destruct (flat_int_head i (flat_mss ms ++ w1 ++ colon :: r) Hx) as (t & r' & E & Ht & Hs). rewrite E, (skip_solid tk cl t r' Ht).
+      destruct (cl t) as [| |k0| | | | | | | | | | | |o| | |k| | | |]; try discriminate Hs; exact Hs.
+    - destruct Hx as (Hi1 & _). rewrite <- app_assoc.
+      destruct (flat_int_head i1 ((xw1 ++ dots :: xw2 ++ flat_int i2) ++ flat_mss ms ++ w1 ++ colon :: r) Hi1) as (t & r' & E & Ht & Hs).
+      rewrite E, (skip_solid tk cl t r' Ht).
+      destruct (cl t) as [| |k0| | | | | | | | | | | |o| | |k| | | |]; try discriminate Hs; exact Hs.
+    - cbn [app]. rewrite (skip_solid tk cl n _) by (unfold StExprProofs.solid; rewrite Hx; discriminate). rewrite Hx.
+      destruct (mss_follow ms w1 colon r Hms Hw1 Hcolon) as (fw & ft & fr & Ef & Hfw & Hft).
+      rewrite Ef, (skip_app_triv tk cl fw _ Hfw). rewrite (skip_solid tk cl ft fr); [exact Hft|].
+      unfold StExprProofs.solid. destruct (cl ft); try discriminate Hft; discriminate.
+  Qed.
+
   (* ---- the main induction ---- *)
   Definition P_s (s : ss) : Prop :=
     wf_s s -> forall rest, semi_next s rest -> forall F L f, size_s s <= F -> size_s s <= L -> size_s s <= f ->
@@ -411,7 +633,7 @@ Section G.
     forall F L f0 f, size_m m <= F -> size_m m <= L -> size_m m <= f0 -> size_m m <= f ->
     stmts_more (stmt1 (pexpr F) (plist L) f0) f acc (flat_m m ++ w ++ semi :: rest) = Ok (acc ++ erase_m m, w ++ semi :: rest).
   Definition P_b (b : sob) : Prop :=
-    wf_b b -> forall rest, closer_next rest -> (babsorbs b = true -> skip rest = rest) -> forall L, size_b b <= L ->
+    wf_b b -> forall rest, kw_closer rest -> (babsorbs b = true -> skip rest = rest) -> forall L, size_b b <= L ->
     opt_list (plist L) (skip (flat_b b ++ rest)) = Ok (erase_b b, match b with BNone => skip rest | BSome _ => rest end).
   Definition else_or_end (t : tk) : Prop := cl t = CKw KwElse \/ cl t = CKw KwEndIf.
   Definition P_eis (e : seis) : Prop :=
@@ -420,14 +642,23 @@ Section G.
     (forall acc, elsifs_more (pexpr F) (plist L) f acc (flat_eis e ++ wt ++ t0 :: r0) = Ok (acc ++ erase_eis e, wt ++ t0 :: r0)) /\
     elsifs (pexpr F) (plist L) f (skip (flat_eis e ++ wt ++ t0 :: r0)) =
       Ok (erase_eis e, match e with EINil => skip (wt ++ t0 :: r0) | _ => wt ++ t0 :: r0 end).
+  Definition end_kw (k : kw) : Prop := k = KwEndIf \/ k = KwEndCase.
   Definition P_el (e : sels) : Prop :=
-    forall w4, wf_el w4 e -> forall en r, all_triv w4 -> cl en = CKw KwEndIf -> forall L, size_el e <= L ->
+    forall w4, wf_el w4 e -> forall en r ke, all_triv w4 -> cl en = CKw ke -> end_kw ke -> forall L, size_el e <= L ->
     else_part (plist L) (flat_el e ++ w4 ++ en :: r) = Ok (erase_el e, w4 ++ en :: r).
+  Definition else_or_endcase (t : tk) : Prop := cl t = CKw KwElse \/ cl t = CKw KwEndCase.
+  Definition P_cs (e : scases) : Prop :=
+    forall wt, wf_cs wt e -> all_triv wt -> forall t0 r0, else_or_endcase t0 ->
+    forall L f, size_cs e <= L -> size_cs e <= f ->
+    (forall acc, cases_more (plist L) f acc (flat_cs e ++ wt ++ t0 :: r0) = Ok (acc ++ erase_cs e, wt ++ t0 :: r0)) /\
+    cases (plist L) f (skip (flat_cs e ++ wt ++ t0 :: r0)) =
+      Ok (erase_cs e, match e with CaNil => skip (wt ++ t0 :: r0) | _ => wt ++ t0 :: r0 end).
 
   Lemma stmt1_kw pe pl f t r k : cl t = CKw k ->
     stmt1 pe pl f (t :: r) =
     match k with
     | KwIf => if_tail pe pl f r
+    | KwCase => case_tail pe pl f r
     | KwFor => for_tail pe pl r
     | KwWhile => while_tail pe pl r
     | KwRepeat => repeat_tail pe pl r
@@ -454,17 +685,20 @@ Section G.
     - exists (skip ts). split; [reflexivity | apply skip_skip].
   Qed.
 
-  (* no group starts at the keyword that closes the construct *)
-  Lemma groups_stop ps f acc rest : (forall t r, nonstart (cl t) = true -> ps (t :: r) = Fail) -> ps [] = Fail ->
-    closer_next rest -> groups_more ps (S f) acc rest = Ok (acc, rest).
+  (* no group starts at the keyword that closes the construct, or at the selector of the next CASE element *)
+  Lemma groups_stop pe pl f0 f acc rest : 1 <= f0 -> closer_next rest ->
+    groups_more (stmt1 pe pl f0) (S f) acc rest = Ok (acc, rest).
   Proof.
-    intros Hps Hnil Hrest. cbn [StParser.groups_more]. unfold StParser.group, StParser.next_is.
+    intros Hf0 Hrest. cbn [StParser.groups_more]. unfold StParser.group, StParser.next_is.
+    pose proof (closer_nostart rest Hrest) as Hns.
     unfold closer_next in Hrest. destruct (skip rest) as [|t0 r0] eqn:Er; [contradiction|].
-    destruct (cl t0) eqn:Ec; try contradiction. cbn [is_semi].
+    assert (Hsemi : is_semi (cl t0) = false) by (destruct (cl t0); try reflexivity; cbn in Hrest; discriminate Hrest).
+    rewrite Hsemi.
     destruct rest as [|x xs]; [discriminate|].
-    rewrite Hps; [reflexivity|]. cbn in Er. destruct (is_triv tk cl x) eqn:Ex.
-    - unfold is_triv in Ex. destruct (cl x); try discriminate; reflexivity.
-    - injection Er as -> _. rewrite Ec. cbn. rewrite Hrest. reflexivity.
+    cbn in Er. destruct (is_triv tk cl x) eqn:Ex.
+    - rewrite stmt1_fails; [reflexivity|]. unfold is_triv in Ex. destruct (cl x); try discriminate; reflexivity.
+    - injection Er as -> ->. pose proof (stmt1_fails_skip pe pl f0 (t0 :: r0) Hf0 Hns) as HF. cbn [StParser.skip] in HF.
+      rewrite Ex in HF. rewrite HF. reflexivity.
   Qed.
 
   Lemma closer_skip w t r k : all_triv w -> cl t = CKw k -> w = [] -> skip (w ++ t :: r) = w ++ t :: r.
@@ -476,7 +710,7 @@ Section G.
   Proof. destruct g as [|s m w semi]; cbn [size_g]; [lia|]. pose proof (size_m_pos m). lia. Qed.
 
   Lemma main_s : (forall s, P_s s) /\ (forall l, P_l l) /\ (forall g, P_g g) /\ (forall m, P_m m) /\ (forall b, P_b b) /\
-                 (forall e, P_eis e) /\ (forall e, P_el e).
+                 (forall e, P_eis e) /\ (forall e, P_el e) /\ (forall e, P_cs e).
   Proof.
     apply ss_mutind.
     - (* assignment *)
@@ -560,10 +794,10 @@ Section G.
       destruct HR2 as (t0 & r0 & ER2 & Ht0 & Hlead).
       assert (Ht0k : exists k0, cl t0 = CKw k0 /\ starter k0 = false) by (destruct Ht0 as [E|E]; eexists; (split; [exact E | reflexivity])).
       destruct Ht0k as (k0 & Ek0 & Sk0).
-      assert (HR1 : closer_next R1).
+      assert (HR1 : kw_closer R1).
       { unfold R1. rewrite ER2. destruct eis as [|ew0 ek ew1 ec ew2 eth ew3 ebody er]; cbn [flat_eis app wf_eis] in *.
-        - eapply closer_at; [exact Hlead | exact Ek0 | exact Sk0].
-        - destruct Heis as (Hew0 & Hek & _). rewrite <- !app_assoc. cbn [app]. eapply closer_at; [exact Hew0 | exact Hek | reflexivity]. }
+        - eapply kw_closer_at; [exact Hlead | exact Ek0 | exact Sk0].
+        - destruct Heis as (Hew0 & Hek & _). rewrite <- !app_assoc. cbn [app]. eapply kw_closer_at; [exact Hew0 | exact Hek | reflexivity]. }
       assert (HR1s : babsorbs b = true -> skip R1 = R1).
       { intro Hb1. specialize (Habs Hb1). unfold R1. rewrite ER2.
         destruct eis as [|ew0 ek ew1 ec ew2 eth ew3 ebody er]; cbn [flat_eis app eis_lead wf_eis] in *.
@@ -583,10 +817,10 @@ Section G.
                 | Fail => Fail | Panic => Panic | OutOfFuel => OutOfFuel
                 end = Ok (TIf (erase c) (erase_b b) (erase_eis eis) (erase_el el), rest)).
       { intros r4 [-> | ->].
-        - unfold R2. rewrite (IHel w4 Hel en rest Hw4 Hen L) by lia.
+        - unfold R2. rewrite (IHel w4 Hel en rest KwEndIf Hw4 Hen (or_introl eq_refl) L) by lia.
           rewrite (next_is_at tk cl _ w4 en rest Hw4 (kw_solid en _ Hen)) by (rewrite Hen; reflexivity). reflexivity.
         - pose proof (else_part_skip (plist L) R2) as HS. unfold R2 in HS at 1.
-          rewrite (IHel w4 Hel en rest Hw4 Hen L) in HS by lia. destruct HS as (r' & HS1 & HS2).
+          rewrite (IHel w4 Hel en rest KwEndIf Hw4 Hen (or_introl eq_refl) L) in HS by lia. destruct HS as (r' & HS1 & HS2).
           rewrite HS1. unfold StParser.next_is. rewrite HS2.
           change (match skip (w4 ++ en :: rest) with
                   | [] => None
@@ -594,6 +828,44 @@ Section G.
                   end) with (next_is (is_kw KwEndIf) (w4 ++ en :: rest)).
           rewrite (next_is_at tk cl _ w4 en rest Hw4 (kw_solid en _ Hen)) by (rewrite Hen; reflexivity). reflexivity. }
       apply Hend. destruct eis; [right | left]; reflexivity.
+    - (* CASE *)
+      intros k w1 c w2 o cs IHcs el IHel w4 en (Hk & Hw1 & Hc & Hw2 & Hcend & Ho & Hcs & Hel & Hw4 & Hen) rest _ F L f HF HL Hf.
+      cbn [size_s] in HF, HL, Hf. cbn [flat_s erase_s app].
+      rewrite (stmt1_kw _ _ _ k _ KwCase Hk). unfold StParser.case_tail.
+      set (R2 := flat_el el ++ w4 ++ en :: rest).
+      set (R1 := flat_cs cs ++ R2).
+      replace ((w1 ++ flat c ++ w2 ++ o :: flat_cs cs ++ flat_el el ++ w4 ++ [en]) ++ rest)
+        with (w1 ++ flat c ++ w2 ++ o :: R1)
+        by (unfold R1, R2; repeat (rewrite <- app_assoc; cbn [app]); reflexivity).
+      rewrite (pe0_at w1 c w2 o _ F Hw1 Hc Hw2 Hcend) by (try lia; rewrite Ho; reflexivity).
+      rewrite (next_is_at tk cl _ w2 o _ Hw2 (kw_solid o _ Ho)) by (rewrite Ho; reflexivity).
+      assert (HR2 : exists t0 r0, R2 = el_lead el w4 ++ t0 :: r0 /\ else_or_endcase t0 /\ all_triv (el_lead el w4)).
+      { unfold R2. destruct el as [|ew0 ek ew1 ebody]; cbn [flat_el el_lead app wf_el] in *.
+        - exists en, rest. split; [reflexivity|]. split; [right; exact Hen | exact Hw4].
+        - destruct Hel as (Hew0 & Hek & _). eexists ek, _. rewrite <- !app_assoc. cbn [app]. split; [reflexivity|]. split; [left; exact Hek | exact Hew0]. }
+      destruct HR2 as (t0 & r0 & ER2 & Ht0 & Hlead).
+      destruct (IHcs (el_lead el w4) Hcs Hlead t0 r0 Ht0 L f) as [_ HE]; try lia.
+      unfold R1. rewrite ER2. rewrite HE. rewrite <- ER2.
+      assert (Hend : forall r4, r4 = R2 \/ r4 = skip R2 ->
+                match else_part (plist L) r4 with
+                | Ok (els, r5) => match next_is (is_kw KwEndCase) r5 with
+                                  | Some r6 => Ok (TCase (erase c) (erase_cs cs) els, r6)
+                                  | None => Fail
+                                  end
+                | Fail => Fail | Panic => Panic | OutOfFuel => OutOfFuel
+                end = Ok (TCase (erase c) (erase_cs cs) (erase_el el), rest)).
+      { intros r4 [-> | ->].
+        - unfold R2. rewrite (IHel w4 Hel en rest KwEndCase Hw4 Hen (or_intror eq_refl) L) by lia.
+          rewrite (next_is_at tk cl _ w4 en rest Hw4 (kw_solid en _ Hen)) by (rewrite Hen; reflexivity). reflexivity.
+        - pose proof (else_part_skip (plist L) R2) as HS. unfold R2 in HS at 1.
+          rewrite (IHel w4 Hel en rest KwEndCase Hw4 Hen (or_intror eq_refl) L) in HS by lia. destruct HS as (r' & HS1 & HS2).
+          rewrite HS1. unfold StParser.next_is. rewrite HS2.
+          change (match skip (w4 ++ en :: rest) with
+                  | [] => None
+                  | t :: r => if is_kw KwEndCase (cl t) then Some r else None
+                  end) with (next_is (is_kw KwEndCase) (w4 ++ en :: rest)).
+          rewrite (next_is_at tk cl _ w4 en rest Hw4 (kw_solid en _ Hen)) by (rewrite Hen; reflexivity). reflexivity. }
+      apply Hend. destruct cs; [right | left]; reflexivity.
     - (* FOR *)
       intros k w1 v w2 a w3 e1 w4 to w5 e2 w6 st d w7 body IHbody w8 en
              (Hk & Hw1 & Hv & Hw2 & Ha & Hw3 & He1 & Hw4 & He1end & Hto & Hw5 & He2 & Hw6 & He2end & Hst & Hd & Hw7 & Hbody & Hw8 & Hen & Habs)
@@ -666,12 +938,12 @@ Section G.
         destruct L as [|L]; [lia|]. cbn [StParser.plist]. unfold StParser.stmt_list.
         assert (Hgf : gfollow g rest) by (destruct g; cbn [gfollow gempty] in *; [apply Habs; reflexivity | apply closer_nostart; exact Hrest]).
         rewrite (IHg true Hg rest Hgf) by lia.
-        destruct L as [|L']; [lia|]. rewrite groups_stop; [reflexivity | intros; apply stmt1_fails; assumption | reflexivity | exact Hrest].
+        destruct L as [|L']; [lia|]. rewrite groups_stop; [reflexivity | lia | exact Hrest].
       + intros pe Hg rest Hrest Habs acc F L f0 f HF HL Hf0 Hf. cbn [size_l wf_l flat_l erase_l absorbs] in *.
         destruct f as [|f]; [lia|]. cbn [StParser.groups_more].
         assert (Hgf : gfollow g rest) by (destruct g; cbn [gfollow gempty] in *; [apply Habs; reflexivity | apply closer_nostart; exact Hrest]).
         rewrite (IHg pe Hg rest Hgf) by lia.
-        destruct f as [|f']; [lia|]. rewrite groups_stop; [reflexivity | intros; apply stmt1_fails; assumption | reflexivity | exact Hrest].
+        destruct f as [|f']; [lia|]. rewrite groups_stop; [reflexivity | lia | exact Hrest].
     - (* a group and more *)
       intros g IHg l [_ IHl].
       assert (Hfol : forall pe, wf_g pe g -> wf_l (gempty g) l -> forall rest, gfollow g (flat_l l ++ rest)).
@@ -712,10 +984,10 @@ Section G.
       rewrite (IHm w Hm Hw semi rest [erase_s s] Hsemi Hrest F L f0 f) by lia.
       rewrite (next_is_at tk cl _ w semi rest Hw Hss) by (rewrite Hsemi; reflexivity). reflexivity.
     - (* no further statement *)
-      intros w _ Hw semi rest acc Hsemi Hrest F L f0 f _ _ _ Hf. cbn [size_m] in Hf. destruct f as [|f]; [lia|].
+      intros w _ Hw semi rest acc Hsemi Hrest F L f0 f _ _ Hf0 Hf. cbn [size_m] in Hf, Hf0. destruct f as [|f]; [lia|].
       assert (Hss : solid semi) by (unfold StExprProofs.solid; rewrite Hsemi; discriminate).
       cbn [flat_m erase_m app StParser.stmts_more]. rewrite (next_is_at tk cl _ w semi rest Hw Hss) by (rewrite Hsemi; reflexivity).
-      rewrite (stmt1_fails_skip _ _ _ rest Hrest). rewrite app_nil_r. reflexivity.
+      rewrite (stmt1_fails_skip _ _ f0 rest Hf0 Hrest). rewrite app_nil_r. reflexivity.
     - (* one more statement *)
       intros w1 semi1 w2 s IHs m IHm w (Hw1 & Hsemi1 & Hw2 & Hs & Hm & Hsend) Hw semi rest acc Hsemi Hrest F L f0 f HF HL Hf0 Hf.
       cbn [size_m] in HF, HL, Hf0, Hf. destruct f as [|f]; [lia|].
@@ -737,12 +1009,12 @@ Section G.
       rewrite <- app_assoc. reflexivity.
     - (* no body *)
       intros _ rest Hrest _ L HL. cbn [size_b] in HL. destruct L as [|L]; [lia|]. cbn [flat_b erase_b app].
-      unfold StParser.opt_list. unfold closer_next in Hrest. destruct (skip rest) as [|t r] eqn:Er; [contradiction|].
+      unfold StParser.opt_list. unfold kw_closer in Hrest. destruct (skip rest) as [|t r] eqn:Er; [contradiction|].
       destruct (cl t) eqn:Ec; try contradiction.
       rewrite plist_fails; [reflexivity | rewrite Ec; cbn; rewrite Hrest; reflexivity | rewrite Ec; discriminate | rewrite Ec; discriminate].
     - (* a body *)
       intros l IHl Hl rest Hrest Habs L HL. cbn [size_b] in HL. cbn [flat_b erase_b wf_b babsorbs] in *.
-      rewrite (flat_l_skip l rest Hl). unfold StParser.opt_list. rewrite (proj1 IHl Hl rest Hrest Habs L) by lia. reflexivity.
+      rewrite (flat_l_skip l rest Hl). unfold StParser.opt_list. rewrite (proj1 IHl Hl rest (kw_closer_next _ Hrest) Habs L) by lia. reflexivity.
     - (* no ELSIF *)
       intros wt _ Hwt t0 r0 Ht0 F L f _ _ Hf. cbn [size_eis] in Hf. cbn [flat_eis erase_eis app].
       assert (Hfail : elsif1 (pexpr F) (plist L) (skip (wt ++ t0 :: r0)) = Fail).
@@ -784,16 +1056,76 @@ Section G.
         destruct (IHr wt Hr Hwt t0 r0 Ht0 F L f) as [HA' _]; try lia. fold rest in HA'. rewrite HA'. rewrite <- app_assoc. reflexivity.
       + unfold StParser.elsifs. rewrite H1. rewrite HA. reflexivity.
     - (* no ELSE *)
-      intros w4 _ en r Hw4 Hen L _. cbn [flat_el erase_el app]. unfold StParser.else_part.
-      rewrite (next_is_not tk cl _ w4 en r Hw4 (kw_solid en _ Hen)) by (rewrite Hen; reflexivity). reflexivity.
+      intros w4 _ en r ke Hw4 Hen Hke L _. cbn [flat_el erase_el app]. unfold StParser.else_part.
+      rewrite (next_is_not tk cl _ w4 en r Hw4 (kw_solid en _ Hen)) by (rewrite Hen; destruct Hke as [-> | ->]; reflexivity). reflexivity.
     - (* ELSE *)
-      intros w0 k w1 body IHbody w4 (Hw0 & Hk & Hw1 & Hbody & Habs) en r Hw4 Hen L HL. cbn [size_el] in HL. cbn [flat_el erase_el].
+      intros w0 k w1 body IHbody w4 (Hw0 & Hk & Hw1 & Hbody & Habs) en r ke Hw4 Hen Hke L HL. cbn [size_el] in HL. cbn [flat_el erase_el].
+      assert (Sk : starter ke = false) by (destruct Hke as [-> | ->]; reflexivity).
       rewrite <- !app_assoc. cbn [app]. rewrite <- !app_assoc. unfold StParser.else_part.
       rewrite (next_is_at tk cl _ w0 k _ Hw0 (kw_solid k _ Hk)) by (rewrite Hk; reflexivity).
       rewrite (skip_app_triv tk cl w1 _ Hw1), (flat_l_skip body _ Hbody).
       rewrite (proj1 IHbody Hbody (w4 ++ en :: r));
-        [ reflexivity | eapply closer_at; [exact Hw4 | exact Hen | reflexivity]
+        [ reflexivity | eapply closer_at; [exact Hw4 | exact Hen | exact Sk]
           | intro Hb; eapply closer_skip; [exact Hw4 | exact Hen | exact (Habs Hb)] | lia].
+    - (* no CASE element *)
+      intros wt _ Hwt t0 r0 Ht0 L f _ Hf. cbn [size_cs] in Hf. cbn [flat_cs erase_cs app].
+      assert (Hfail : case_elem (plist L) f (skip (wt ++ t0 :: r0)) = Fail).
+      { rewrite (skip_app_triv tk cl wt _ Hwt).
+        assert (Hs0 : solid t0) by (unfold StExprProofs.solid; destruct Ht0 as [E|E]; rewrite E; discriminate).
+        rewrite (skip_solid tk cl t0 r0 Hs0). unfold StParser.case_elem, StParser.case_sel, StParser.signed_int, StParser.ident.
+        destruct Ht0 as [E|E]; rewrite E; reflexivity. }
+      split.
+      + intro acc. destruct f as [|f]; [lia|]. cbn [StParser.cases_more].
+        assert (Hfail' : case_elem (plist L) f (skip (wt ++ t0 :: r0)) = Fail).
+        { rewrite (skip_app_triv tk cl wt _ Hwt).
+          assert (Hs0 : solid t0) by (unfold StExprProofs.solid; destruct Ht0 as [E|E]; rewrite E; discriminate).
+          rewrite (skip_solid tk cl t0 r0 Hs0). unfold StParser.case_elem, StParser.case_sel, StParser.signed_int, StParser.ident.
+          destruct Ht0 as [E|E]; rewrite E; reflexivity. }
+        rewrite Hfail', app_nil_r. reflexivity.
+      + unfold StParser.cases. rewrite Hfail. reflexivity.
+    - (* a CASE element *)
+      intros w0 x ms w1 colon w2 body IHbody r IHr wt (Hw0 & Hx & Hms & Hw1 & Hcolon & Hw2 & Hbody & Hr & Habs) Hwt t0 r0 Ht0 L f HL Hf.
+      cbn [size_cs] in HL, Hf. cbn [flat_cs erase_cs].
+      set (rest := wt ++ t0 :: r0).
+      replace ((w0 ++ flat_sel x ++ flat_mss ms ++ w1 ++ colon :: w2 ++ flat_l body ++ flat_cs r) ++ rest)
+        with (w0 ++ flat_sel x ++ flat_mss ms ++ w1 ++ colon :: w2 ++ flat_l body ++ flat_cs r ++ rest)
+        by (repeat (rewrite <- app_assoc; cbn [app]); reflexivity).
+      assert (Ht0k : exists k0, cl t0 = CKw k0 /\ starter k0 = false) by (destruct Ht0 as [E|E]; eexists; (split; [exact E | reflexivity])).
+      destruct Ht0k as (k0 & Ek0 & Sk0).
+      assert (Hcl : closer_next (flat_cs r ++ rest)).
+      { unfold rest. destruct r as [|rw0 rx rms rw1 rcolon rw2 rbody rr]; cbn [flat_cs app wf_cs] in *.
+        - eapply closer_at; [exact Hwt | exact Ek0 | exact Sk0].
+        - destruct Hr as (Hrw0 & Hrx & Hrms & Hrw1 & Hrcolon & _).
+          replace ((rw0 ++ flat_sel rx ++ flat_mss rms ++ rw1 ++ rcolon :: rw2 ++ flat_l rbody ++ flat_cs rr) ++ wt ++ t0 :: r0)
+            with (rw0 ++ flat_sel rx ++ flat_mss rms ++ rw1 ++ rcolon :: (rw2 ++ flat_l rbody ++ flat_cs rr ++ wt ++ t0 :: r0))
+            by (repeat (rewrite <- app_assoc; cbn [app]); reflexivity).
+          apply sel_closer; assumption. }
+      assert (Hsk : absorbs body = true -> skip (flat_cs r ++ rest) = flat_cs r ++ rest).
+      { intro Hb. specialize (Habs Hb). unfold rest. destruct r as [|rw0 rx rms rw1 rcolon rw2 rbody rr]; cbn [flat_cs app cs_lead wf_cs] in *.
+        - rewrite Habs. cbn [app]. apply skip_solid. unfold StExprProofs.solid. rewrite Ek0. discriminate.
+        - destruct Hr as (_ & Hrx & _). rewrite Habs. cbn [app]. rewrite <- app_assoc.
+          destruct (flat_sel_head rx ((flat_mss rms ++ rw1 ++ rcolon :: rw2 ++ flat_l rbody ++ flat_cs rr) ++ wt ++ t0 :: r0) Hrx) as (t & r' & E & Ht).
+          rewrite E. apply skip_solid. exact Ht. }
+      assert (H1 : forall f1, length ms < f1 ->
+                   case_elem (plist L) f1 (flat_sel x ++ flat_mss ms ++ w1 ++ colon :: w2 ++ flat_l body ++ flat_cs r ++ rest) =
+                   Ok ((erase_sel x :: map erase_ms ms, erase_l body), flat_cs r ++ rest)).
+      { intros f1 Hf1. unfold StParser.case_elem.
+        destruct (mss_follow ms w1 colon (w2 ++ flat_l body ++ flat_cs r ++ rest) Hms Hw1 Hcolon) as (fw & ft & fr & Ef & Hfw & Hft).
+        rewrite Ef. rewrite (case_sel_at x fw ft fr Hx Hfw Hft). rewrite <- Ef.
+        rewrite (csels_more_at ms Hms [erase_sel x] w1 colon _ f1 Hw1 Hcolon Hf1).
+        assert (Hsc : solid colon) by (unfold StExprProofs.solid; rewrite Hcolon; discriminate).
+        rewrite (next_is_at tk cl _ w1 colon _ Hw1 Hsc) by (rewrite Hcolon; reflexivity).
+        rewrite (skip_app_triv tk cl w2 _ Hw2), (flat_l_skip body _ Hbody).
+        rewrite (proj1 IHbody Hbody (flat_cs r ++ rest) Hcl Hsk) by lia. reflexivity. }
+      destruct (flat_sel_head x (flat_mss ms ++ w1 ++ colon :: w2 ++ flat_l body ++ flat_cs r ++ rest) Hx) as (tx & rx' & Ex & Htx).
+      assert (Hskx : skip (w0 ++ flat_sel x ++ flat_mss ms ++ w1 ++ colon :: w2 ++ flat_l body ++ flat_cs r ++ rest) =
+                     flat_sel x ++ flat_mss ms ++ w1 ++ colon :: w2 ++ flat_l body ++ flat_cs r ++ rest).
+      { rewrite (skip_app_triv tk cl w0 _ Hw0). rewrite Ex. apply skip_solid. exact Htx. }
+      split.
+      + intro acc. destruct f as [|f]; [lia|]. cbn [StParser.cases_more]. rewrite Hskx, H1 by lia.
+        destruct (IHr wt Hr Hwt t0 r0 Ht0 L f) as [HA' _]; try lia. fold rest in HA'. rewrite HA'. rewrite <- app_assoc. reflexivity.
+      + unfold StParser.cases. rewrite Hskx, H1 by lia.
+        destruct (IHr wt Hr Hwt t0 r0 Ht0 L f) as [HA _]; try lia. fold rest in HA. rewrite HA. reflexivity.
   Qed.
 
   (* every well-formed spelling of a statement list -- empty statements included -- is parsed to the list it denotes; the
@@ -804,6 +1136,15 @@ Section G.
   Proof. intros l rest L Hl Hrest Habs HL. destruct main_s as (_ & M & _). apply (proj1 (M l)); assumption. Qed.
 
   (* ---- the number of nodes is bounded by the number of tokens ---- *)
+  Lemma sel_len x : 1 <= length (flat_sel x).
+  Proof. destruct x as [[d|p d|m w d]|[d|p d|m w d] w1 dots w2 i2|n]; cbn [flat_sel flat_int length app]; lia. Qed.
+
+  Lemma mss_len ms : length ms <= length (flat_mss ms).
+  Proof.
+    induction ms as [|[w1 comma w2 x] ms IH]; [apply Nat.le_refl|]. unfold flat_mss. cbn [map concat flat_ms]. fold (flat_mss ms).
+    rewrite !app_length. cbn [length]. lia.
+  Qed.
+
   Lemma size_bound_s :
     (forall s, size_s s <= 3 * length (flat_s s)) /\
     (forall l, size_l l <= 3 * length (flat_l l)) /\
@@ -811,10 +1152,11 @@ Section G.
     (forall m, size_m m <= 3 * length (flat_m m) + 1) /\
     (forall b, size_b b <= 3 * length (flat_b b) + 1) /\
     (forall e, size_eis e <= 3 * length (flat_eis e) + 1) /\
-    (forall e, size_el e <= 3 * length (flat_el e) + 1).
+    (forall e, size_el e <= 3 * length (flat_el e) + 1) /\
+    (forall e, size_cs e <= 3 * length (flat_cs e) + 1).
   Proof.
     destruct (size_bound tk) as (Be & Bp & Bps & Bss & _).
-    apply ss_mutind; intros; cbn [size_s size_l size_g size_m size_b size_eis size_el flat_s flat_l flat_g flat_m flat_b flat_eis flat_el];
+    apply ss_mutind; intros; cbn [size_s size_l size_g size_m size_b size_eis size_el size_cs flat_s flat_l flat_g flat_m flat_b flat_eis flat_el flat_cs];
       repeat (rewrite app_length || cbn [length]);
       repeat match goal with
              | |- context [size ?e] => pose proof (Be e); generalize dependent (size e); intros
@@ -823,9 +1165,10 @@ Section G.
              | |- context [sizess ?e] => pose proof (Bss e); generalize dependent (sizess e); intros
              end; try lia.
     (* FOR: the optional BY part *)
-    destruct st as [|bk bw1 be bw2]; cbn [size_by flat_by]; repeat (rewrite app_length || cbn [length]).
-    - lia.
-    - pose proof (Be be). lia.
+    - destruct st as [|bk bw1 be bw2]; cbn [size_by flat_by]; repeat (rewrite app_length || cbn [length]).
+      + lia.
+      + pose proof (Be be). lia.
+    - pose proof (sel_len x). pose proof (mss_len ms). lia.
   Qed.
 
   (* ---- a well-formed statement list is inside the model's scope ---- *)
@@ -839,24 +1182,45 @@ Section G.
       | apply scoped_app
       | apply scoped_cons; [eapply ok_of_class; [eassumption | reflexivity] | ] ].
 
+  Lemma scoped_int i : wf_int i -> scoped (flat_int i).
+  Proof. destruct i as [d|p d|m w d]; cbn [wf_int flat_int]; [intro H | intros (H & H0) | intros (H & -> & H0); cbn [app]]; sc. Qed.
+
+  Lemma scoped_sel x : wf_sel x -> scoped (flat_sel x).
+  Proof.
+    destruct x as [i|i1 w1 dots w2 i2|n]; cbn [wf_sel flat_sel].
+    - apply scoped_int.
+    - intros (H1 & H2 & H3 & H4 & H5). pose proof (scoped_int i1 H1). pose proof (scoped_int i2 H5). sc.
+    - intro H. sc.
+  Qed.
+
+  Lemma scoped_mss ms : Forall wf_ms ms -> scoped (flat_mss ms).
+  Proof.
+    induction 1 as [|[w1 comma w2 x] ms (H1 & H2 & H3 & H4) _ IH]; [apply scoped_nil|].
+    unfold flat_mss. cbn [map concat flat_ms]. fold (flat_mss ms). pose proof (scoped_sel x H4). sc.
+  Qed.
+
   Lemma wf_scoped_s :
     (forall s, wf_s s -> scoped (flat_s s)) /\ (forall l, forall pe, wf_l pe l -> scoped (flat_l l)) /\
     (forall g, forall pe, wf_g pe g -> scoped (flat_g g)) /\
     (forall m, forall w, wf_m w m -> scoped (flat_m m)) /\ (forall b, wf_b b -> scoped (flat_b b)) /\
-    (forall e, forall wt, wf_eis wt e -> scoped (flat_eis e)) /\ (forall e, forall w4, wf_el w4 e -> scoped (flat_el e)).
+    (forall e, forall wt, wf_eis wt e -> scoped (flat_eis e)) /\ (forall e, forall w4, wf_el w4 e -> scoped (flat_el e)) /\
+    (forall e, forall wt, wf_cs wt e -> scoped (flat_cs e)).
   Proof.
     destruct (wf_scoped tk cl lvl) as (Se & Sp & Sps & Sss & _).
     assert (SE : forall e, wf 0 e -> scoped (flat e)) by (intros e H; apply (proj1 (Se e) 0 H)).
     apply ss_mutind with (P := fun s => wf_s s -> scoped (flat_s s)) (P0 := fun l => forall pe, wf_l pe l -> scoped (flat_l l))
       (P1 := fun g => forall pe, wf_g pe g -> scoped (flat_g g))
       (P2 := fun m => forall w, wf_m w m -> scoped (flat_m m)) (P3 := fun b => wf_b b -> scoped (flat_b b))
-      (P4 := fun e => forall wt, wf_eis wt e -> scoped (flat_eis e)) (P5 := fun e => forall w4, wf_el w4 e -> scoped (flat_el e)).
+      (P4 := fun e => forall wt, wf_eis wt e -> scoped (flat_eis e)) (P5 := fun e => forall w4, wf_el w4 e -> scoped (flat_el e))
+      (P6 := fun e => forall wt, wf_cs wt e -> scoped (flat_cs e)).
     - intros v vs w1 a w2 e (H1 & Hvs & H2 & H3 & H4 & H5). cbn [flat_s]. pose proof (SE e H5). pose proof (Sss vs Hvs). sc.
     - intros f w1 lp w2 rp (H1 & H2 & H3 & H4 & H5). cbn [flat_s]. sc.
     - intros f w1 lp w2 p ps w3 rp (H1 & H2 & H3 & H4 & H5 & H6 & H7 & H8 & _). cbn [flat_s].
       pose proof (Sp p H5). pose proof (Sps ps w3 H6). sc.
     - intros k w1 c w2 th w3 b IHb eis IHe el IHl w4 en (H1 & H2 & H3 & H4 & _ & H6 & H7 & H8 & H9 & H10 & H11 & H12 & _).
       cbn [flat_s]. pose proof (SE c H3). specialize (IHb H8). specialize (IHe _ H9). specialize (IHl _ H10). sc.
+    - intros k w1 c w2 o cs IHc el IHl w4 en (H1 & H2 & H3 & H4 & _ & H6 & H7 & H8 & H9 & H10).
+      cbn [flat_s]. pose proof (SE c H3). specialize (IHc _ H7). specialize (IHl _ H8). sc.
     - intros k w1 v w2 a w3 e1 w4 to w5 e2 w6 st d w7 body IHb w8 en
              (H1 & H2 & H3 & H4 & H5 & H6 & H7 & H8 & _ & H10 & H11 & H12 & H13 & _ & H15 & H16 & H17 & H18 & H19 & H20 & _).
       cbn [flat_s]. pose proof (SE e1 H7). pose proof (SE e2 H12). specialize (IHb _ H18).
@@ -883,6 +1247,9 @@ Section G.
       pose proof (SE c H4). specialize (IHb _ H9). specialize (IHr _ H10). sc.
     - intros w4 _. apply scoped_nil.
     - intros w0 k w1 body IHb w4 (H1 & H2 & H3 & H4 & _). cbn [flat_el]. specialize (IHb _ H4). sc.
+    - intros wt _. apply scoped_nil.
+    - intros w0 x ms w1 colon w2 body IHb r IHr wt (H1 & H2 & H3 & H4 & H5 & H6 & H7 & H8 & _). cbn [flat_cs].
+      pose proof (scoped_sel x H2). pose proof (scoped_mss ms H3). specialize (IHb _ H7). specialize (IHr _ H8). sc.
   Qed.
 
   Lemma wf_l_in_scope l w2 en k w3 : wf_l true l -> all_triv w2 -> cl en = CKw k -> all_triv w3 ->
